@@ -45,6 +45,10 @@ CLAIMS = {
    tech="Spec-driven typestate (known-bit): guard dominance over go/cfg in Type callbacks (unknown by contract), AllowUnknown parameters and elements of arguments",
    text="Decides a necessary condition of 'replacing arguments or nested parts by unknowns cannot turn success into failure': every known-only accessor in a Type callback, on an AllowUnknown parameter in an Impl callback, or on an element of any argument is dominated by IsKnown/IsWhollyKnown on the subject or its container (including the 'exit unless wholly known for every argument' loop idiom).",
    note="Not decided: that refined results admit the concrete results (length bounds, prefixes) and that known parts agree — value-level. "),
+ "C17": dict(rules=["C17.error-checked","C17.result-depends-on-type","C17.length-taint","C17.partial-constructors","C17.object-completion"],
+   tech="taint tracking of input-supplied lengths to allocation sizes over go/ssa (dominating bound checks as sanitisers) + forward may-analysis of unread errors over go/cfg + data/control dependence of successful returns on the requested type + guard dominance for panicking constructors",
+   text="Decides, for every function reachable from the five decoder entry points: no length read from the input sizes an allocation without a dominating bound; no error variable is overwritten or dropped unread; every successful return of a type-directed decoder depends on the requested type; ListVal/SetVal/MapVal are dominated by the Can*Val test, ObjectWithOptionalAttrs by a validation of the optional names, refinement-builder replays by a recovering defer; structural values are returned only after the member count was compared with the type (distinct members for by-name decoding) or completed from it.",
+   note="Not decided: panics needing value ranges inside the third-party JSON/msgpack tokenizers, stack depth on deeply nested input, the exact memory multiple. "),
  "C20": dict(rules=["C20.no-payload-write","C20.no-global-write","C20.closure-state","C20.builder-copy","C20.set-storage","C20.no-alias-out","C20.no-retention-in"],
    tech="ownership / alias / effect analysis over go/ssa (origin tracing with field-sensitive callee summaries): who may write payload memory, what escapes through results, what is retained from parameters, which escaping closures write captured state",
    text="Decides: no function writes memory reached through Value.v, marker.realV/marks, unknownType.refinement or a typeImpl record of anything it did not allocate; nothing writes package-level state after init; no escaping closure writes a captured variable; a refinement record is never shared between a value and the mutable builder; every function returning a set returns a fresh bucket map and buckets are not shared while Add appends in place; exported accessors returning Go references return copies; exported constructors do not retain caller-owned slices/maps/pointers (documented transfers tabled).",
